@@ -518,7 +518,7 @@ theorem step_keeps {par : Nat → Sess} {P : Nat → Nat → Nat → Prop} (hp :
         have hk := keeps_emit_other s mid { l with q := { l.q with nodes := rest } }
           (.nack l.now s' .rst m' false) rfl (by intros; simp)
         have := hrt _ hk 0 (by simp)
-        exact ⟨this.1, this.2.1, this.2.2, finv_emit_other _ hi1 (by intros; simp)⟩
+        exact ⟨this.1, this.2.1, this.2.2, finv_emit_other _ hi1 ⟨by intros; simp, by intros; simp⟩⟩
       | some n =>
         obtain ⟨hcon, hmid⟩ := hkey n rfl
         simp only [hcon, if_true]
@@ -527,7 +527,7 @@ theorem step_keeps {par : Nat → Sess} {P : Nat → Nat → Nat → Prop} (hp :
         have := hrt _ hk (if s' = s ∧ m' = mid then 1 else 0) (by simp)
         have hw : nackW s mid (.nack (release { l with q := { l.q with nodes := rest } } s').now s' .rst n.mid true) =
             (if s' = s ∧ m' = mid then 1 else 0) := by simp [nackW, obsM, hmid]
-        refine ⟨?_, ?_, ?_, finv_emit_other _ hf (by intros; simp)⟩
+        refine ⟨?_, ?_, ?_, finv_emit_other _ hf ⟨by intros; simp, by intros; simp⟩⟩
         · have h1 := this.1
           simp only [Phi] at h1 ⊢
           show nackC s mid (_ :: (release _ s').out) + pendC s mid (release _ s').q.nodes +
